@@ -120,7 +120,7 @@ fn main() {
             let _ = std::fs::create_dir_all(dir);
             vkit::runner::install_panic_hook();
             vkit::runner::set_quiet(true);
-            let n = match id.as_str() {
+            let n: usize = match id.as_str() {
                 #[cfg(feature = "c03")]
                 "C03" => c03::fuzz_seeds(dir, 60, seed),
                 #[cfg(feature = "c07")]
